@@ -20,7 +20,7 @@
 From Coq Require Import ZArith List Bool Arith Lia PrimFloat Reals Sorted.
 From MJV Require Import Lib.Num Lib.NumR Model.Sparse Model.Chol
   Proof.LinAlgBase Proof.SparseProof Proof.SparseMergeProof Proof.SparseSymProof
-  Proof.SparseCompressProof Proof.BandProof Proof.CholProof.
+  Proof.SparseCompressProof Proof.BandProof Proof.CholProof Proof.CholFactorProof.
 Import ListNotations.
 Open Scope R_scope.
 
@@ -194,6 +194,33 @@ Theorem C23_chol_solve :
       bsum n (fun j => LLt n L i j * nth j (cholSolve n L b) 0) = nth i b 0.
 Proof. exact cholSolve_spec. Qed.
 Print Assumptions C23_chol_solve.
+
+(* ---------------- mju_cholFactor (in place, column by column): when no column is rank-deficient
+   (returned rank = n) and mindiag > 0, the lower triangle of the result is L with positive
+   diagonal and L L' = A on the lower triangle; the strict upper triangle is untouched.
+   (mat_dims n A: A has n rows of length n.  The rank-deficient branch is modelled and tied but
+   nothing is proved about it.) *)
+Theorem C23_chol_factor :
+  forall (n : nat) (mindiag : R) (A : list (list R)), mat_dims n A -> 0 < mindiag ->
+    snd (cholFactor n mindiag A) = Z.of_nat n ->
+    let L := fst (cholFactor n mindiag A) in
+    mat_dims n L /\
+    (forall i j : nat, (j <= i)%nat -> (i < n)%nat -> LLt n L i j = dget A i j) /\
+    (forall i : nat, (i < n)%nat -> 0 < dget L i i) /\
+    (forall i j : nat, (i < j)%nat -> (j < n)%nat -> dget L i j = dget A i j).
+Proof. exact cholFactor_spec. Qed.
+Print Assumptions C23_chol_factor.
+
+(* factor, then solve: the symmetric matrix denoted by the lower triangle of A times x is b *)
+Theorem C23_chol_factor_solve :
+  forall (n : nat) (mindiag : R) (A : list (list R)) (b : list R),
+    mat_dims n A -> 0 < mindiag -> snd (cholFactor n mindiag A) = Z.of_nat n ->
+    let x := cholSolve n (fst (cholFactor n mindiag A)) b in
+    length x = n /\
+    forall i : nat, (i < n)%nat ->
+      bsum n (fun j => (if Nat.leb j i then dget A i j else dget A j i) * nth j x 0) = nth i b 0.
+Proof. exact chol_factor_solve. Qed.
+Print Assumptions C23_chol_factor_solve.
 
 (* ---------------- non-vacuity: concrete well-formed inputs with gaps, an empty row, unsorted
    columns; the models compute what the statements say *)
